@@ -21,7 +21,7 @@ structure Ref where
   closeCalls : Nat := 0
   deriving Repr, Inhabited
 
-def setAt {α} (l : List α) (i : Nat) (x : α) : List α := l.mapIdx fun j y => if j == i then x else y
+def setAt {α} (l : List α) (i : Nat) (x : α) : List α := l.set i x
 
 /-- expected result and next reference state; `none`: the call is outside the domain
     (unknown handle, end of borrow without open borrow) -/
@@ -72,14 +72,18 @@ def expect (r : Ref) (op : Op) : Option (Res × Ref) :=
 def lenient (r : Ref) (op : Op) (o : Obs) : Option Ref :=
   match op, o.res with
   | .borrowEnter h, .new n =>
-    if r.status[h]? == some .taken && n == r.status.length then
-      (r.cfgs[h]?).map fun c =>
-        { r with status := r.status ++ [.taken], cfgs := r.cfgs ++ [c], frames := (h, .taken) :: r.frames }
-    else none
+    match r.status[h]?, r.cfgs[h]? with
+    | some .taken, some c =>
+      if n = r.status.length then
+        some { r with status := r.status ++ [.taken], cfgs := r.cfgs ++ [c], frames := (h, .taken) :: r.frames }
+      else none
+    | _, _ => none
   | .take h, .new n =>
-    if r.status[h]? == some .taken && n == r.status.length then
-      (r.cfgs[h]?).map fun c => { r with status := r.status ++ [.taken], cfgs := r.cfgs ++ [c] }
-    else none
+    match r.status[h]?, r.cfgs[h]? with
+    | some .taken, some c =>
+      if n = r.status.length then some { r with status := r.status ++ [.taken], cfgs := r.cfgs ++ [c] }
+      else none
+    | _, _ => none
   | _, _ => none
 
 /-- the history is in the domain and every observation is what the property demands -/
